@@ -127,3 +127,60 @@ Print Assumptions C19_checker_valid.
 (* Outside the claim, exposed by the model (Example panic_on_missing_bid): a channel element
    that is nil or lacks its embedded bid makes SendBid panic.  The preconfirmation sender of
    this repository never delivers one (it verifies every commitment first). *)
+
+(* ---- composition with C05, C03 and C02 (proofs/Compose_bidder.v) -------------------------------------
+   C19 o C05 o C03 o C02.  The sender of the API is the preconfirmation protocol (BidderApi_proofs.node_wiring),
+   whose SendBid model (model/PreconfBidder.v) takes ConstructSignedBid as an oracle; here that oracle is
+   the signer model's construct_bid for an arbitrary hash function K and crypto library cr
+   (Compose_bidder.signer_oracles), and the call values are the ones this API hands over
+   (Compose_bidder.args_of).  For every request accepted by the published rules whose three numbers are Go
+   int64 values: the request reaches SendBid exactly once, and whatever SendBid then does (any connected
+   peers, reply scripts, deadline) the bid it signed and offers carries the request's hashes joined in
+   order (they split back), its amount text, block number and decay window and nothing else; its digest
+   is the generic EIP-712 hash (model/Eip712.v part II, written from the EIP text) of those values, which
+   are well typed for the published schema (C03_bid applies: accepted amounts lie below 2^64, accepted
+   numbers in (0, 2^63)); its signature is the key signer's answer for that digest with v moved to 27/28;
+   and exactly this message is written once on every stream that opened, one stream per connected
+   provider.  Non-vacuity: Compose_bidder.ex_request_accepted, Compose_bidder.ex_bidder_path. *)
+From MevVerif Require model.Eip712 model.Signer model.PreconfBidder proofs.PreconfBidder_proofs proofs.Compose_bidder.
+Theorem C19_accepted_bid_is_eip712 :
+  forall (K : bytes -> bytes) (cr : Signer.crypto) (r : request),
+  bidder_bid_ok (r_txs r) (r_amount r) (r_bn r) (r_ds r) (r_de r) = true ->
+  (r_bn r <= int64_max)%Z -> (r_ds r <= int64_max)%Z -> (r_de r <= int64_max)%Z ->
+  forall ans fail_at,
+  exists f, calls (send_bid (Some r) ans fail_at) = [f] /\
+  forall view D run,
+    PreconfBidder.send_bid (Compose_bidder.signer_oracles K cr) (Compose_bidder.args_of f) view D
+      = PreconfBidder.SRun run ->
+    let s := PreconfBidder.r_sent run in
+    PreconfBidder.b_tx s = join 44 (r_txs r) /\ split 44 (PreconfBidder.b_tx s) = r_txs r /\
+    PreconfBidder.b_amt s = r_amount r /\ PreconfBidder.b_bn s = r_bn r /\
+    PreconfBidder.b_ds s = r_ds r /\ PreconfBidder.b_de s = r_de r /\ PreconfBidder.b_unk s = [] /\
+    PreconfBidder.b_dig s =
+      Eip712.eip712_hash K Eip712.domain_schema Eip712.bid_domain Eip712.bid_schema
+        (Eip712.bid_values (join 44 (r_txs r)) (dec_value (r_amount r))
+                           (Z.to_N (r_bn r)) (Z.to_N (r_ds r)) (Z.to_N (r_de r))) /\
+    Eip712.well_typed (Eip712.s_members Eip712.bid_schema)
+        (Eip712.bid_values (join 44 (r_txs r)) (dec_value (r_amount r))
+                           (Z.to_N (r_bn r)) (Z.to_N (r_ds r)) (Z.to_N (r_de r))) = true /\
+    Signer.sign_normalised cr (PreconfBidder.b_dig s) = Ok (PreconfBidder.b_sig s) /\
+    Forall2 (fun p ct => fst ct = PreconfBidder.p_addr p /\
+                         snd ct = if PreconfBidder_proofs.opens_stream p then [s] else [])
+            (PreconfBidder.get_peers PreconfBidder.TProvider view) (PreconfBidder.r_contacted run).
+Proof. exact Compose_bidder.accepted_bid_is_eip712. Qed.
+Print Assumptions C19_accepted_bid_is_eip712.
+
+(* C19 o C05 o C03.  For an accepted request ConstructSignedBid is decided by the key signer alone (the
+   "missing required fields" and "invalid bid amount" refusals are unreachable behind the API rules), so
+   SendBid refuses the call only when the key signer fails or no provider is connected. *)
+Theorem C19_accepted_bid_refused_only_by_signer :
+  forall (K : bytes -> bytes) (cr : Signer.crypto) (r : request),
+  bidder_bid_ok (r_txs r) (r_amount r) (r_bn r) (r_ds r) (r_de r) = true ->
+  (r_bn r <= int64_max)%Z -> (r_ds r <= int64_max)%Z -> (r_de r <= int64_max)%Z ->
+  forall view D,
+  PreconfBidder.send_bid (Compose_bidder.signer_oracles K cr) (Compose_bidder.args_of (forward r)) view D
+    = PreconfBidder.SErr ->
+  (exists e, Signer.sign_normalised cr (Compose_bidder.req_digest K r) = Err e) \/
+  PreconfBidder.get_peers PreconfBidder.TProvider view = [].
+Proof. exact Compose_bidder.accepted_refused_only_by_signer. Qed.
+Print Assumptions C19_accepted_bid_refused_only_by_signer.
